@@ -325,6 +325,7 @@ def shared_corpus():
         (2, ["P1.S1.c600.e.S2.c1200.e", "P1.S2.c600.e.S1.c600.e"]),         # ZSTDMT_resize -> POOL_resize on the SHARED pool while the other runs
         (1, ["P1.S3.c1700.e", "P1.S1.c600.z.e"]),                           # grow the shared pool beyond its capacity from a context
         (2, ["P1.S2.c600.R.P0.c600.e", "P1.S1.c600.e"]),                    # abandon a frame on the shared pool, go private
+        (1, ["P1.S3.L.c1700.e", "P1.S2.L.c1200.R.c600.e"]),                 # long-distance matching: jobs wait for each other's serial section, 1 thread
     ]
     if SHARED_WITH_DICT:
         C += [(1, ["S1.D.c600.F"]), (1, ["S1.D.c600.R.D.c600.e"]), (2, ["P1.S1.D.c600.R.D.c600.e", "P1.S1.c600.e"])]
@@ -345,6 +346,8 @@ def gen_shared(rng):
             nbw = rng.choice([1, 1, 2, 3]); ops.append("S%d" % nbw)
             if SHARED_WITH_DICT and rng.random() < 0.3:
                 ops.append("D")
+            if rng.random() < 0.2:
+                ops.append("L")
         prelude()
         for _ in range(rng.randint(1, 3)):
             for _ in range(rng.randint(1, 2)):
